@@ -18,7 +18,7 @@ from ..tlc import read_export, run_tlc, validate_traces
 
 LEVEL = "model_checking"
 LAW = dict(EpsPct=30, C=4000, K=2500)
-ALLW, ALLC, ALLB = set(range(1, 34)), set(range(1, 31)), set(range(1, 14))
+ALLW, ALLC, ALLB = set(range(1, 34)), set(range(1, 34)), set(range(1, 14))
 NOB = dict(BlockUse=set(), Prefixes={0})
 TIERS = {
     "quick": [dict(Sizes={4, 8, 16}, WrapUse=ALLW, ChainUse=ALLC, BreakUse={1, 2, 3, 4, 5, 6, 7}, Pairs=False, ChainScale=4, PatternWraps={1, 2, 4, 6}, BlockUse=ALLB, Prefixes={0}),
